@@ -576,6 +576,42 @@ var invalidCatalogue = []entry{
 	}, apply: func(t *rapid.T, c *ValCase, i int) {
 		c.Logs[i].Backend = rapid.SampledFrom([]string{"", "nowhere", "BE0", "be0 ", "default"}).Draw(t, "dangling-name")
 	}},
+	// A reference to no defined backend at a chosen position: one log alone (first, middle, last) or a
+	// run of 2..n consecutive logs that starts at that position (so leading runs, inner runs and "every
+	// log" all occur), all carrying the same undefined name - the empty / absent name half of the time.
+	// Drawn by genVal on its own (see "undef-ref" there) so that it is the only defect of the case.
+	{name: "backend-reference-undefined-run", scope: "multi", targets: func(c *ValCase) []int {
+		if !c.Multi {
+			return nil
+		}
+		return allLogs(c)
+	}, apply: func(t *rapid.T, c *ValCase, i int) {
+		defined := map[string]bool{}
+		for _, b := range c.Backends {
+			defined[b.Name] = true
+		}
+		cands := []string{"", "", "", ""}
+		for _, n := range []string{" ", "nowhere", "default", "BE0", "0"} {
+			if !defined[n] {
+				cands = append(cands, n)
+			}
+		}
+		for _, b := range c.Backends { // near misses of defined names
+			for _, n := range []string{b.Name + " ", " " + b.Name, b.Name + "x", b.Spec} {
+				if !defined[n] {
+					cands = append(cands, n)
+				}
+			}
+		}
+		name := rapid.SampledFrom(cands).Draw(t, "undefined-name")
+		run := 1
+		if rest := len(c.Logs) - i; rest > 1 && rapid.Bool().Draw(t, "undefined-is-run") {
+			run = rapid.IntRange(2, rest).Draw(t, "undefined-run-len")
+		}
+		for k := i; k < i+run; k++ {
+			c.Logs[k].Backend = name
+		}
+	}},
 	{name: "backends-absent", scope: "multi", targets: whole(func(c *ValCase) bool { return c.Multi && len(c.Logs) > 0 && !c.LogsAbsent }), apply: func(t *rapid.T, c *ValCase, _ int) {
 		c.Backends, c.BackendsAbsent = nil, true
 	}},
@@ -670,6 +706,26 @@ func genVal(t *rapid.T) ValCase {
 			Delta:  rapid.SampledFrom([]int{0, 0, 0, 1, -1, 2, -2, 100, -100, 5000}).Draw(t, "bulk-delta"),
 		}
 		c.record("bulk-padding", "valid", "", c.Bulk.Log)
+	}
+	// Own generator entry: about one multi-config in twelve gets an undefined backend reference (alone
+	// or as a run, at any position, half of them starting at the first log) as its ONLY defect.
+	// (a value in the middle of the range: rapid favours the ends)
+	if c.Multi {
+		if d := rapid.IntRange(0, 23).Draw(t, "undef-ref"); d == 7 || d == 13 {
+			c.Twin = c.snapshot()
+			only := func(e *entry) bool { return e.name == "backend-reference-undefined-run" }
+			if rapid.Bool().Draw(t, "undef-ref-leading") {
+				for k := range invalidCatalogue {
+					if e := &invalidCatalogue[k]; only(e) {
+						e.apply(t, &c, 0)
+						c.record(e.name, "invalid", e.scope, 0)
+					}
+				}
+			} else {
+				applyFrom(t, &c, invalidCatalogue, only, "invalid-edit")
+			}
+			return c
+		}
 	}
 	ni := rapid.SampledFrom([]int{0, 0, 0, 0, 1, 1, 1, 1, 2, 2}).Draw(t, "ninvalid")
 	if ni > 0 {
